@@ -20,8 +20,8 @@ BINS = [b for b in ["h_outbound", "h_payflow", "h_paysched"] if os.path.exists(o
 LEVEL = "proof"
 MANIFEST = {
     "category": "proof",
-    "text": "Coq theorems, by induction over ALL operation lists and interleavings of payment ids, about a transliterated model of OutboundPayments (per entry lifetime at most one of PaymentSent|PaymentFailed, never contradicted, PaymentSent only from a claim with that preimage and with the entry's amount/fee, PaymentFailed only if no claim hit the entry, drained payments terminate, duplicate ids refused, removal only by PaymentFailed or the idempotency timeout, Fulfilled snapshots never fail after restart); the model is tied to the code on every run by op-for-op differential execution of the real OutboundPayments and by an end-to-end tier on real ChannelManagers judged by the property's statement.",
-    "note": "Proved on the hand model; OutboundPayments validated by functional correspondence (not proved equal). Channel/monitor guarantees (an HTLC is claimed or failed, never both; preimage checked against the hash in channel.rs; monitors re-report only unresolved HTLCs) are hypotheses validated end-to-end only. Retry::Timeout, BOLT12/static-invoice states, blinded/trampoline paths, event completion actions are not modelled.",
+    "text": "Coq theorems, by induction over ALL operation lists and interleavings of payment ids, about a transliterated model of OutboundPayments (per entry lifetime at most one of PaymentSent|PaymentFailed, never contradicted, PaymentSent only from a claim with that preimage and with the entry's amount/fee, PaymentFailed only if no claim hit the entry, drained payments terminate, duplicate ids refused, removal only by PaymentFailed or the idempotency timeout, Fulfilled snapshots never fail after restart, a path whose send returned Ok or MonitorUpdateInProgress keeps its part, no PaymentFailed while a part is pending); the model is tied to the code on every run by op-for-op differential execution of the real OutboundPayments (send results Ok / hard error / MonitorUpdateInProgress mixed), by scripted end-to-end scenarios and by a seeded random scheduler on real ChannelManagers and ChannelMonitors (2-4 nodes, async persistence, single message deliveries, config changes, force closes, blocks, restarts of the sender from its latest monitors and any earlier manager snapshot) judged by the property's statement on the real event stream, list_recent_payments, channels and monitors.",
+    "note": "Proved on the hand model; OutboundPayments validated by functional correspondence (not proved equal). Channel/monitor guarantees (an HTLC is claimed or failed, never both; preimage checked against the hash in channel.rs; monitors re-report only unresolved HTLCs) are hypotheses validated end-to-end only; the scheduler tier found three classes where they fail on the unchanged tree (known findings C03:stale-manager-fails-settled-payment, C03:stale-manager-loses-handled-resolution, C03:held-failure-dropped-on-close). Retry::Timeout, BOLT12/static-invoice states, blinded/trampoline paths, event completion actions are not modelled.",
     "technique": "machine-checked proof in Coq (induction over operation lists with a per-id scanner invariant) + op-for-op differential correspondence + end-to-end judge",
 }
 FEATURES = ["std", "_test_utils", "_verif_hooks"]
@@ -639,7 +639,7 @@ def functional(ctx, model_ok):
     ctx.coverage["functional_ops"] = sum(len(o) for o, _ in seqs)
     ctx.coverage["op_kind_histogram"] = kinds
     names = {1: "PaymentSent", 2: "PaymentFailed", 3: "PaymentPathSuccessful", 4: "PaymentPathFailed", 5: "ProbeSuccessful",
-             6: "ProbeFailed", 10: "entry created", 11: "claim hit an entry", 12: "HTLC allocated", 13: "result code", 14: "panic"}
+             6: "ProbeFailed", 10: "entry created", 11: "claim hit an entry", 12: "HTLC allocated", 13: "result code", 14: "panic", 15: "entry removed without PaymentFailed (idempotency timeout / probe resolved)"}
     ctx.coverage["impl_output_histogram"] = {names.get(k, str(k)): v for k, v in sorted(evkinds.items())}
     # ---- model side
     dis = []
@@ -939,10 +939,14 @@ def sched_tier(ctx):
     ctx.coverage["sched_schedules"] = len(jobs)
     ctx.coverage["sched_steps"] = nsteps
     ctx.coverage["sched_action_histogram"] = hist
-    ctx.coverage["sched_payments"] = {"accepted": npay, "PaymentSent": nterm[0], "PaymentFailed": nterm[1]}
-    ctx.coverage["sched_finding_class_hits"] = {k: len(v) for k, v in classes.items()}
+    # LDK's hash maps are randomly keyed outside cfg(test): in a few percent of the 4-node schedules the order in
+    # which a node forwards differs between two runs of the same schedule. The judge's rules hold for every run, so
+    # the verdict does not depend on it; the counts below would, so they only go to the log.
+    ctx.log("scheduler: %d payments accepted, %d PaymentSent, %d PaymentFailed; finding-class hits %s" %
+            (npay, nterm[0], nterm[1], {k: len(v) for k, v in classes.items()}))
+    ctx.coverage["sched_finding_classes_seen"] = sorted(k for k, v in classes.items() if v)
     if jobs:
-        ctx.samples.append({"schedule": jobs[len(DIRECTED)][1][:12], "result": results[len(DIRECTED)]})
+        ctx.samples.append({"schedule": jobs[0][1], "result": results[0]})
     return real, classes
 
 
@@ -968,10 +972,12 @@ def run(ctx):
         "Coq 8.16.1 kernel + vm_compute (no native_compute)",
         "tools/rs2v/consts_lite (IDEMPOTENCY_TIMEOUT_TICKS regenerated from the source every run)",
         "Model/Outbound.v hand transliteration of OutboundPayments, tied by op-for-op functional correspondence through lightning feature _verif_hooks (ln::outbound_payment::verif_hooks_outbound)",
-        "harness crate /verif/harness (h_outbound: scripted router/entropy/send callback; h_payflow: LDK functional_test_utils)",
+        "harness crate /verif/harness (h_outbound: scripted router/entropy/send callback; h_payflow and h_paysched: LDK functional_test_utils, TestPersister, test wallet; read-only hooks monupd_view and monitor_htlc_view)",
         "channel/monitor layer (hypotheses, validated end-to-end only): an HTLC is fulfilled or failed, never both; update_fulfill preimages are checked against the HTLC hash; monitors re-report on startup only HTLCs whose resolution was not yet released to the user",
     ]
-    ctx.assumptions += ["HTLCSource (payment id, session priv, path) travels unchanged with each HTLC", "Retry::Timeout / BOLT12 pre-HTLC states not modelled"]
+    ctx.assumptions += ["HTLCSource (payment id, session priv, path) travels unchanged with each HTLC", "Retry::Timeout / BOLT12 pre-HTLC states not modelled",
+                        "scheduler: node 0 sends, the last node receives; at most two restarts, of the sender only; every broadcast transaction that can confirm does so in the next block; no revoked commitment is broadcast; payments whose parts are all below the dust limit may be claimed and still fail (forfeited on chain by design)",
+                        "scheduler: LDK hash maps are randomly keyed outside cfg(test); the judged rules hold for every run, counts that vary between runs are logged, not recorded"]
     seqs, dis, judge_fails, idem = functional(ctx, okm)
     e2e_fails = e2e(ctx)
     sched_real, sched_classes = sched_tier(ctx)
@@ -1039,8 +1045,12 @@ def replay(ctx, rep):
         return 1 if fails else 0
     if "schedule" in rep:
         ctx.build_harness(BINS)
-        r = run_schedule(ctx, rep["schedule"])
         print("\n".join(rep["schedule"]))
-        print("->", json.dumps(r))
-        return 0 if r.get("ok") else 1
+        for attempt in range(6):
+            # (randomly keyed hash maps inside LDK: a 4-node schedule may need more than one run)
+            r = run_schedule(ctx, rep["schedule"])
+            print("->", json.dumps(r))
+            if not r.get("ok"):
+                return 1
+        return 0
     return 0
